@@ -601,6 +601,18 @@ func ParseSQL(raw string) (SQLStmt, bool) {
 			}
 		}
 		return st, true
+	case "WITH":
+		// common table expression: read-only unless it carries a mutating verb;
+		// table and columns are not modelled
+		st.Verb = "SELECT"
+		st.Table = "(cte)"
+		for _, t := range toks {
+			switch strings.ToUpper(t) {
+			case "INSERT", "UPDATE", "DELETE", "REPLACE":
+				return st, false
+			}
+		}
+		return st, true
 	case "ALTER":
 		st.Verb = "ALTER"
 		if len(toks) > 2 {
